@@ -3,6 +3,8 @@ import VhostModel.SpecDrv.Srv
 import VhostModel.SpecDrv.Fe
 import VhostModel.SpecDrv.Send
 import VhostModel.SpecDrv.Locks
+import VhostModel.SpecDrv.Log
+import VhostModel.SpecDrv.Route
 /-! Spec driver: evaluates the property's own rule on a scenario (and, for behavioural families, on
 the observation the implementation produced). Imports nothing generated from /repo. -/
 
@@ -14,6 +16,8 @@ def dispatch (line : String) : String :=
   | "fe" :: _ => SpecDrv.Fe.run toks
   | "send" :: _ => SpecDrv.Send.run toks
   | "locks" :: _ => SpecDrv.Locks.run toks
+  | "route" :: _ => SpecDrv.Route.run toks
+  | "log" :: _ => SpecDrv.Log.run toks
   | _ => "bad-family"
 
 partial def loop (h : IO.FS.Stream) (out : IO.FS.Stream) : IO Unit := do
